@@ -500,7 +500,15 @@ class Gen:
         if "once" in quals:
             # the once-marker is keyed by the component's text: two identical print.once components share it (IMPL)
             items.append(L.t_text(f" ({self.nprint})"))
-        return L.print_node(items, quals=quals, uid=f"print{self.nprint}")
+        n = L.print_node(items, quals=quals, uid=f"print{self.nprint}")
+        x = r.random()
+        if x < 0.12:
+            n["args"].append(L.term(r.choice(["audit", "errs"])))               # a named printout stream
+        elif x < 0.24:
+            # the follow-up is a side-effect function: a value producer (counter, sum ...) would already act when print's
+            # argument values are validated, before and whether or not the entry is printed (IMPL, CHOICES.md)
+            n["args"].append(L.fn(r.choice(["push", "push", "push_distinct"]), L.term("stk2"), L.term(self.nprint)))
+        return n
 
     # ---- replace / append / collect: the csvpath rewrites or projects the line (spec/Eval.tla, st.line / st.headers / st.limit)
     def rewrite_component(self):
